@@ -153,11 +153,26 @@ def run_property(prop_mod, tier="quick", seed=0):
         # sub-checks: (props-like module, [contract class names]) verified under their own contract registry
         for sub_mod, names in getattr(pm, "SUBCHECKS", []):
             futs += [ex.submit(verify_target, (sub_mod, ("byname", n), timeout_ms, 6)) for n in names]
-        for f in futs:
+        jobs = [(prop_mod, k, timeout_ms, 6) for k in keys]
+        for sub_mod, names in getattr(pm, "SUBCHECKS", []):
+            jobs += [(sub_mod, ("byname", n), timeout_ms, 6) for n in names]
+        lost = []
+        for job, f in zip(jobs, futs):
             try:
                 results.append(f.result(timeout=3600))
             except Exception as e:
-                results.append({"key": "?", "error": "worker failed: %s" % e, "obligations": []})
+                lost.append((job, e))
+    # a worker process that died (a solver crash or the kernel's OOM killer takes the whole pool down): every job that did not
+    # deliver is run again, one at a time, each in a fresh process of its own
+    for job, e in lost:
+        try:
+            with cf.ProcessPoolExecutor(max_workers=1) as ex1:
+                results.append(ex1.submit(verify_target, job).result(timeout=3600))
+        except Exception as e2:
+            results.append({"key": repr(job[1]), "error": "worker failed twice: %s / %s" % (e, e2), "obligations": []})
+    if False:
+        for f in []:
+            pass
     extra = []
     if hasattr(pm, "extra_checks"):
         extra = pm.extra_checks(ft, tier, seed)      # syntactic / bounded stand-in results
